@@ -21,9 +21,9 @@ import (
 	"cosmossdk.io/log"
 	sdkmath "cosmossdk.io/math"
 	"github.com/cometbft/cometbft/crypto/ed25519"
-	authcodec "github.com/cosmos/cosmos-sdk/x/auth/codec"
 	cryptocodec "github.com/cosmos/cosmos-sdk/crypto/codec"
 	sdk "github.com/cosmos/cosmos-sdk/types"
+	authcodec "github.com/cosmos/cosmos-sdk/x/auth/codec"
 	slashingtypes "github.com/cosmos/cosmos-sdk/x/slashing/types"
 	stakingtypes "github.com/cosmos/cosmos-sdk/x/staking/types"
 	"github.com/onsi/ginkgo/v2"
@@ -55,36 +55,118 @@ func valAddr(i int) sdk.ValAddress {
 
 func chainName(c int) string { return fmt.Sprintf("chain-%d", c) }
 
-var chainTypes = []string{"evm", "evm", "evm", "evm", "EVM", "Evm", "cosmos"}
+// ---------- recorded forms ----------
 
-// ---------- recorded (abstract) forms ----------
-
+// rinfo is one external account with the strings as registered (chain type, chain reference id,
+// traits); Addr numbers the remote address.  Legacy corpus files spell {"Evm":…,"Chain":n,…}.
 type rinfo struct {
-	Evm   bool
-	Chain int
-	Addr  int64
+	Type   string   `json:"type"`
+	Ref    string   `json:"ref"`
+	Addr   int64    `json:"Addr"`
+	Traits []string `json:"traits,omitempty"`
 }
+
+func (i *rinfo) UnmarshalJSON(b []byte) error {
+	var raw struct {
+		Type   *string  `json:"type"`
+		Ref    *string  `json:"ref"`
+		Addr   int64    `json:"Addr"`
+		Traits []string `json:"traits"`
+		Evm    *bool    `json:"Evm"`
+		Chain  *int     `json:"Chain"`
+	}
+	if err := json.Unmarshal(b, &raw); err != nil {
+		return err
+	}
+	i.Addr, i.Traits = raw.Addr, raw.Traits
+	switch {
+	case raw.Type != nil:
+		i.Type = *raw.Type
+	case raw.Evm != nil && !*raw.Evm:
+		i.Type = "cosmos"
+	default:
+		i.Type = "evm"
+	}
+	switch {
+	case raw.Ref != nil:
+		i.Ref = *raw.Ref
+	case raw.Chain != nil:
+		i.Ref = chainName(*raw.Chain)
+	}
+	return nil
+}
+
 type rval struct {
 	Val   int
 	Share *big.Int
 	Infos []rinfo
 }
 
-func coqInfo(i rinfo) string {
-	return emit.Pair(emit.Bool(i.Evm), emit.ZI(int64(i.Chain)), emit.ZI(i.Addr))
+// stab is the string table of one correspondence case: the Go strings themselves go to Coq once,
+// the steps refer to them by index; the model compares the strings.
+type stab struct {
+	idx  map[string]int
+	list []string
 }
-func coqInfos(is []rinfo) string {
+
+func newStab() *stab { return &stab{idx: map[string]int{}} }
+func (t *stab) id(s string) string {
+	i, ok := t.idx[s]
+	if !ok {
+		i = len(t.list)
+		t.idx[s] = i
+		t.list = append(t.list, s)
+	}
+	return emit.ZI(int64(i))
+}
+func (t *stab) ids(ss []string) string {
+	out := make([]string, len(ss))
+	for k, s := range ss {
+		out[k] = t.id(s)
+	}
+	return emit.List(out)
+}
+func coqString(s string) string {
+	plain := true
+	for i := 0; i < len(s); i++ {
+		if s[i] < 0x20 || s[i] > 0x7e || s[i] == '"' {
+			plain = false
+		}
+	}
+	if plain {
+		return emit.Str(s)
+	}
+	bs := make([]string, len(s))
+	for i := 0; i < len(s); i++ {
+		bs[i] = emit.ZI(int64(s[i]))
+	}
+	return "(C10.bs " + emit.List(bs) + ")"
+}
+func (t *stab) coq() string {
+	out := make([]string, len(t.list))
+	for k, s := range t.list {
+		out[k] = coqString(s)
+	}
+	return emit.List(out)
+}
+
+func coqInfo(t *stab, i rinfo) string {
+	return emit.Pair(t.id(i.Type), t.id(i.Ref), emit.ZI(i.Addr), t.ids(i.Traits))
+}
+func coqInfos(t *stab, is []rinfo) string {
 	s := make([]string, len(is))
 	for k, i := range is {
-		s[k] = coqInfo(i)
+		s[k] = coqInfo(t, i)
 	}
 	return emit.List(s)
 }
-func coqVal(v rval) string { return emit.Pair(emit.ZI(int64(v.Val)), emit.Z(v.Share), coqInfos(v.Infos)) }
-func coqVals(vs []rval) string {
+func coqVal(t *stab, v rval) string {
+	return emit.Pair(emit.ZI(int64(v.Val)), emit.Z(v.Share), coqInfos(t, v.Infos))
+}
+func coqVals(t *stab, vs []rval) string {
 	s := make([]string, len(vs))
 	for k, v := range vs {
-		s[k] = coqVal(v)
+		s[k] = coqVal(t, v)
 	}
 	return emit.List(s)
 }
@@ -110,29 +192,108 @@ func (a *addrReg) id(s string) int64 {
 	return id
 }
 
-func mkExt(a *addrReg, i rinfo, ctype string) *valsettypes.ExternalChainInfo {
+func mkExt(a *addrReg, i rinfo) *valsettypes.ExternalChainInfo {
 	return &valsettypes.ExternalChainInfo{
-		ChainType:        ctype,
-		ChainReferenceID: chainName(i.Chain),
+		ChainType:        i.Type,
+		ChainReferenceID: i.Ref,
 		Address:          a.str(i.Addr),
 		Pubkey:           []byte(a.str(i.Addr)),
+		Traits:           i.Traits,
 	}
 }
 
-func typeFor(r *rand.Rand, evm bool) string {
-	if !evm {
-		return "cosmos"
+// chain types: the eight spellings the code accepts as "evm", and near misses it must not accept
+var evmSpellings = []string{"evm", "evm", "evm", "evm", "EVM", "Evm", "eVm", "evM", "EvM", "eVM", "EVm"}
+var notEvmSpellings = []string{"cosmos", "evm ", " evm", "evm\n", "ev", "evmm", "evm2", "", "\uff45\uff56\uff4d", "\u0435vm", "e\u200bvm", "EV\u039c", "solana"}
+
+func genType(r *rand.Rand, evm bool) string {
+	if evm {
+		return evmSpellings[r.Intn(len(evmSpellings))]
 	}
-	return chainTypes[r.Intn(6)]
+	return notEvmSpellings[r.Intn(len(notEvmSpellings))]
 }
 
-func isEvm(t string) bool { return strings.ToLower(t) == "evm" }
+// isEvm: the oracle's own reading of "the chain type is evm up to letter case": one of the eight
+// ASCII spellings (written out, not computed with the function the code uses)
+func isEvm(t string) bool {
+	switch t {
+	case "evm", "evM", "eVm", "eVM", "Evm", "EvM", "EVm", "EVM":
+		return true
+	}
+	return false
+}
+
+// nearMiss returns a spelling that a human reads as s but that is another string: letter case,
+// blanks, look-alike letters, a prefix / suffix / extension of s.
+func nearMiss(r *rand.Rand, s string) string {
+	for {
+		if m := nearMiss1(r, s); m != s {
+			return m
+		}
+	}
+}
+
+func nearMiss1(r *rand.Rand, s string) string {
+	repl := func(old, new string) string {
+		if strings.Contains(s, old) {
+			return strings.Replace(s, old, new, 1)
+		}
+		return s + new
+	}
+	switch r.Intn(16) {
+	case 0:
+		return strings.ToUpper(s[:1]) + s[1:]
+	case 1:
+		return strings.ToUpper(s)
+	case 2:
+		return strings.Title(s) //nolint
+	case 3:
+		return s + " "
+	case 4:
+		return " " + s
+	case 5:
+		return s + "\n"
+	case 6:
+		return s + "\t"
+	case 7:
+		return repl("c", "\u0441") // cyrillic es
+	case 8:
+		return repl("a", "\u0430") // cyrillic a
+	case 9:
+		return repl("-", "\u2010") // hyphen
+	case 10:
+		return s + "\u200b" // zero-width space
+	case 11:
+		return s[:len(s)-1]
+	case 12:
+		return s[1:]
+	case 13:
+		return s + "0"
+	case 14:
+		return repl("-", "_")
+	default:
+		b := []byte(s)
+		k := r.Intn(len(b))
+		if b[k] >= 'a' && b[k] <= 'z' {
+			b[k] -= 32
+		}
+		return string(b)
+	}
+}
 
 // ---------- part 1: the projection as a function ----------
 
 type tcase struct {
-	Vals  []rval `json:"vals"`
-	Chain int    `json:"chain"`
+	Vals  []rval  `json:"vals"`
+	Chain int     `json:"chain"`
+	Ref   *string `json:"ref,omitempty"` // the chain projected to, as spelled (legacy files: chain-<Chain>)
+}
+
+func (tc tcase) target() string {
+	if tc.Ref != nil {
+		return *tc.Ref
+	}
+	return chainName(tc.Chain)
 }
 
 func floorPower(share, total *big.Int) *big.Int {
@@ -146,12 +307,13 @@ func floorPower(share, total *big.Int) *big.Int {
 // doTransform runs the real transformSnapshotToCompass + isEnoughToReachConsensus on the case,
 // applies the direct oracle and records the correspondence case.
 func doTransform(run *emit.Run, a *addrReg, r *rand.Rand, tc tcase, tag string) {
+	target := tc.target()
 	sn := &valsettypes.Snapshot{Id: 7, TotalShares: sdkmath.ZeroInt()}
 	total := new(big.Int)
 	for _, v := range tc.Vals {
 		var infos []*valsettypes.ExternalChainInfo
 		for _, i := range v.Infos {
-			infos = append(infos, mkExt(a, i, typeFor(r, i.Evm)))
+			infos = append(infos, mkExt(a, i))
 		}
 		sn.Validators = append(sn.Validators, valsettypes.Validator{
 			Address: valAddr(v.Val), ShareCount: sdkmath.NewIntFromBigInt(v.Share), ExternalChainInfos: infos,
@@ -165,7 +327,7 @@ func doTransform(run *emit.Run, a *addrReg, r *rand.Rand, tc tcase, tag string) 
 	var enough bool
 	panicked := func() (p any) {
 		defer func() { p = recover() }()
-		vs = evmkeeper.VerifTransformSnapshotToCompass(sn, chainName(tc.Chain))
+		vs = evmkeeper.VerifTransformSnapshotToCompass(sn, target)
 		enough = evmkeeper.VerifIsEnoughToReachConsensus(vs)
 		return nil
 	}()
@@ -180,7 +342,7 @@ func doTransform(run *emit.Run, a *addrReg, r *rand.Rand, tc tcase, tag string) 
 	for _, v := range tc.Vals {
 		has := false
 		for _, i := range v.Infos {
-			if i.Evm && i.Chain == tc.Chain {
+			if isEvm(i.Type) && i.Ref == target {
 				shareOf[i.Addr] = v.Share
 				has = true
 			}
@@ -228,7 +390,9 @@ func doTransform(run *emit.Run, a *addrReg, r *rand.Rand, tc tcase, tag string) 
 		run.Count("transform-enough", "no")
 	}
 	nontrivial := len(vs.Validators) >= 2
-	run.Case(fmt.Sprintf("C10.CTransform %s %s %s %s", coqVals(tc.Vals), emit.ZI(int64(tc.Chain)), coqEntries(addrs, vs.Powers), emit.Bool(enough)),
+	tb := newStab()
+	term := fmt.Sprintf("%s %s %s %s", coqVals(tb, tc.Vals), tb.id(target), coqEntries(addrs, vs.Powers), emit.Bool(enough))
+	run.Case("C10.CTransform "+tb.coq()+" "+term,
 		nontrivial, map[string]any{"transform": tc, "powers": vs.Powers, "enough": enough})
 }
 
@@ -327,17 +491,30 @@ func genTransform(r *rand.Rand, next *int64) tcase {
 	}
 	shares := genShares(r, n, true)
 	tc := tcase{Chain: r.Intn(3)}
+	if r.Intn(10) == 0 { // project to a near-miss spelling of the chain the accounts are on
+		m := nearMiss(r, chainName(tc.Chain))
+		tc.Ref = &m
+	}
 	pAcc := 0.5 + r.Float64()/2
 	dups := r.Intn(4) == 0
+	account := func(c int) rinfo {
+		*next++
+		ref := chainName(c)
+		if r.Intn(8) == 0 { // registered under a spelling that only looks like the chain's id
+			ref = nearMiss(r, ref)
+			if tc.Ref != nil && r.Intn(2) == 0 {
+				ref = *tc.Ref
+			}
+		}
+		return rinfo{Type: genType(r, r.Intn(6) != 0), Ref: ref, Addr: *next}
+	}
 	for i := 0; i < n; i++ {
 		v := rval{Val: i, Share: shares[i]}
 		for c := 0; c < 3; c++ {
 			if r.Float64() < pAcc {
-				*next++
-				v.Infos = append(v.Infos, rinfo{Evm: r.Intn(8) != 0, Chain: c, Addr: *next})
+				v.Infos = append(v.Infos, account(c))
 				if dups && r.Intn(4) == 0 { // a second account on the same chain
-					*next++
-					v.Infos = append(v.Infos, rinfo{Evm: r.Intn(8) != 0, Chain: c, Addr: *next})
+					v.Infos = append(v.Infos, account(c))
 				}
 			}
 		}
@@ -350,54 +527,59 @@ func genTransform(r *rand.Rand, next *int64) tcase {
 // ---------- part 2: histories on the real keepers ----------
 
 type env struct {
-	in     *helper.Fixture
-	ctx    sdk.Context
-	nvals  int
-	chains map[int]bool // supported chains (added)
-	scID   uint64
-	seen   map[string]map[uint64]bool // queue -> message ids already reported
-	known  map[uint64]rsnapObs        // last observation of every stored snapshot
-	lastID uint64
+	in      *helper.Fixture
+	ctx     sdk.Context
+	nvals   int
+	names   []string        // the chain spellings of this history: 3 base ids, then (sometimes) near misses of them that are chains of their own
+	chains  map[string]bool // supported chains (added)
+	scID    uint64
+	chainID uint64
+	seen    map[string]map[uint64]bool // queue -> message ids already reported
+	known   map[uint64]rsnapObs        // last observation of every stored snapshot
+	lastID  uint64
+	tb      *stab
 }
 
 type rsnapObs struct {
 	ID     uint64
 	Vals   []rval
 	Total  *big.Int
-	Chains []int
-}
-
-func chainIdx(s string) int {
-	var c int
-	if _, err := fmt.Sscanf(s, "chain-%d", &c); err != nil {
-		return -1
-	}
-	return c
+	Chains []string
 }
 
 func valIdx(a sdk.ValAddress) int { return int(a[18])<<8 | int(a[19]) }
 
+func projInfos(a *addrReg, es []*valsettypes.ExternalChainInfo) []rinfo {
+	var out []rinfo
+	for _, e := range es {
+		out = append(out, rinfo{Type: e.ChainType, Ref: e.ChainReferenceID, Addr: a.id(e.Address), Traits: e.Traits})
+	}
+	return out
+}
+
 func project(a *addrReg, sn *valsettypes.Snapshot) rsnapObs {
 	o := rsnapObs{ID: sn.Id, Total: sn.TotalShares.BigInt()}
 	for _, v := range sn.Validators {
-		rv := rval{Val: valIdx(v.Address), Share: v.ShareCount.BigInt()}
-		for _, e := range v.ExternalChainInfos {
-			rv.Infos = append(rv.Infos, rinfo{Evm: isEvm(e.ChainType), Chain: chainIdx(e.ChainReferenceID), Addr: a.id(e.Address)})
-		}
-		o.Vals = append(o.Vals, rv)
+		o.Vals = append(o.Vals, rval{Val: valIdx(v.Address), Share: v.ShareCount.BigInt(), Infos: projInfos(a, v.ExternalChainInfos)})
 	}
-	for _, c := range sn.Chains {
-		o.Chains = append(o.Chains, chainIdx(c))
-	}
+	o.Chains = append(o.Chains, sn.Chains...)
 	return o
 }
 
-func coqSnap(o rsnapObs) string {
-	cs := make([]string, len(o.Chains))
-	for i, c := range o.Chains {
-		cs[i] = emit.ZI(int64(c))
+func coqSnap(t *stab, o rsnapObs) string {
+	return emit.Pair(emit.ZU(o.ID), coqVals(t, o.Vals), emit.Z(o.Total), t.ids(o.Chains))
+}
+
+func sameInfo(x, y rinfo) bool {
+	if x.Type != y.Type || x.Ref != y.Ref || x.Addr != y.Addr || len(x.Traits) != len(y.Traits) {
+		return false
 	}
-	return emit.Pair(emit.ZU(o.ID), coqVals(o.Vals), emit.Z(o.Total), emit.List(cs))
+	for k := range x.Traits {
+		if x.Traits[k] != y.Traits[k] {
+			return false
+		}
+	}
+	return true
 }
 
 func sameVals(x, y []rval) bool {
@@ -409,7 +591,7 @@ func sameVals(x, y []rval) bool {
 			return false
 		}
 		for k := range x[i].Infos {
-			if x[i].Infos[k] != y[i].Infos[k] {
+			if !sameInfo(x[i].Infos[k], y[i].Infos[k]) {
 				return false
 			}
 		}
@@ -422,7 +604,7 @@ func newEnv(t *testing.T) *env {
 	// knows the consensus and evm message types (InitFixture does not use its argument)
 	in := helper.InitFixture(ginkgo.GinkgoT())
 	ctx := in.Ctx.WithLogger(log.NewNopLogger())
-	return &env{in: in, ctx: ctx, chains: map[int]bool{}, scID: 1, seen: map[string]map[uint64]bool{}, known: map[uint64]rsnapObs{}}
+	return &env{in: in, ctx: ctx, chains: map[string]bool{}, scID: 1, seen: map[string]map[uint64]bool{}, known: map[uint64]rsnapObs{}, tb: newStab()}
 }
 
 var valCodec = authcodec.NewBech32Codec(chainparams.ValidatorAddressPrefix)
@@ -462,8 +644,8 @@ func (e *env) setValidator(i int, status stakingtypes.BondStatus, jailed bool, t
 		return err
 	}
 	fs := &treasurytypes.RelayerFeeSetting{ValAddress: valAddr(i).String()}
-	for c := 0; c < 3; c++ {
-		fs.Fees = append(fs.Fees, treasurytypes.RelayerFeeSetting_FeeSetting{Multiplicator: sdkmath.LegacyMustNewDecFromStr("1.10"), ChainReferenceId: chainName(c)})
+	for _, n := range e.names {
+		fs.Fees = append(fs.Fees, treasurytypes.RelayerFeeSetting_FeeSetting{Multiplicator: sdkmath.LegacyMustNewDecFromStr("1.10"), ChainReferenceId: n})
 	}
 	return e.in.TreasuryKeeper.SetRelayerFee(e.ctx, valAddr(i), fs)
 }
@@ -487,20 +669,47 @@ func (e *env) staking() []sv {
 	return out
 }
 
-func (e *env) activeChains() []int {
-	var out []int
+type chainObs struct {
+	Ref    string
+	Active bool
+}
+
+// the evm keeper's chain infos in store order
+func (e *env) allChains() []chainObs {
+	var out []chainObs
 	cis, _ := e.in.EvmKeeper.GetAllChainInfos(e.ctx)
 	for _, ci := range cis {
-		if ci.IsActive() {
-			if c := chainIdx(ci.GetChainReferenceID()); c >= 0 {
-				out = append(out, c)
-			} else {
-				out = append(out, 99) // the environment's own "test-chain", if it ever becomes active
-			}
+		out = append(out, chainObs{ci.GetChainReferenceID(), ci.IsActive()})
+	}
+	return out
+}
+
+func (e *env) activeChains() []string {
+	var out []string
+	for _, c := range e.allChains() {
+		if c.Active {
+			out = append(out, c.Ref)
 		}
 	}
-	sort.Ints(out)
 	return out
+}
+
+func coqChains(t *stab, cs []chainObs) string {
+	s := make([]string, len(cs))
+	for k, c := range cs {
+		s[k] = emit.Pair(t.id(c.Ref), emit.Bool(c.Active))
+	}
+	return emit.List(s)
+}
+
+// hasExactAccount: some account of the list carries exactly this reference id (Go string equality)
+func hasExactAccount(infos []rinfo, ref string) bool {
+	for _, i := range infos {
+		if i.Ref == ref {
+			return true
+		}
+	}
+	return false
 }
 
 // expected eligible set computed independently of createNewSnapshot, from the real stores
@@ -512,48 +721,57 @@ func (e *env) expectedSnapshot(a *addrReg) ([]rval, *big.Int) {
 		if !s.Bonded || s.Jailed {
 			continue
 		}
-		infos, _ := e.in.ValsetKeeper.GetValidatorChainInfos(e.ctx, valAddr(s.Val))
+		es, _ := e.in.ValsetKeeper.GetValidatorChainInfos(e.ctx, valAddr(s.Val))
+		infos := projInfos(a, es)
 		ok := true
 		for _, c := range active {
-			f := false
-			for _, i := range infos {
-				if chainIdx(i.ChainReferenceID) == c {
-					f = true
-				}
-			}
-			ok = ok && f
+			ok = ok && hasExactAccount(infos, c)
 		}
 		if !ok {
 			continue
 		}
-		rv := rval{Val: s.Val, Share: s.Tokens}
-		for _, i := range infos {
-			rv.Infos = append(rv.Infos, rinfo{Evm: isEvm(i.ChainType), Chain: chainIdx(i.ChainReferenceID), Addr: a.id(i.Address)})
-		}
-		out = append(out, rv)
+		out = append(out, rval{Val: s.Val, Share: s.Tokens, Infos: infos})
 		total.Add(total, s.Tokens)
 	}
 	return out, total
 }
 
+// membersHaveAccounts is the clause "every snapshot member has an account on every active chain",
+// checked directly: for each member and each active chain some account's reference id EQUALS the
+// chain's reference id.
+func (e *env) membersHaveAccounts(run *emit.Run, what string, o rsnapObs, replay any) {
+	for _, c := range e.activeChains() {
+		for _, v := range o.Vals {
+			if !hasExactAccount(v.Infos, c) {
+				var has []string
+				for _, i := range v.Infos {
+					has = append(has, fmt.Sprintf("%q", i.Ref))
+				}
+				run.Violate("C10:member-without-account", fmt.Sprintf("%s lists validator v%d (share %s) which has no account on active chain %q (its accounts are on %s)",
+					what, v.Val, v.Share, c, strings.Join(has, ", ")), replay)
+				return
+			}
+		}
+	}
+}
+
 type sentMsg struct {
-	Chain   int
-	ID      uint64
-	Addrs   []int64
-	Powers  []uint64
-	Present bool
+	Chain  string
+	ID     uint64
+	Addrs  []int64
+	Powers []uint64
 }
 
 // newly appeared UpdateValset messages in the turnstone queues of all supported chains
 func (e *env) newSent(a *addrReg) []sentMsg {
 	var out []sentMsg
-	cs := make([]int, 0, len(e.chains))
+	cs := make([]string, 0, len(e.chains))
 	for c := range e.chains {
 		cs = append(cs, c)
 	}
-	sort.Ints(cs)
+	sort.Strings(cs)
 	for _, c := range cs {
-		q := consensustypes.Queue(evmtypes.ConsensusTurnstoneMessage, "evm", chainName(c))
+		q := consensustypes.Queue(evmtypes.ConsensusTurnstoneMessage, "evm", c)
 		msgs, err := e.in.ConsensusKeeper.GetMessagesFromQueue(e.ctx, q, 0)
 		if err != nil {
 			continue
@@ -588,10 +806,10 @@ func (e *env) newSent(a *addrReg) []sentMsg {
 	return out
 }
 
-func coqSent(ms []sentMsg) string {
+func coqSent(t *stab, ms []sentMsg) string {
 	s := make([]string, len(ms))
 	for i, m := range ms {
-		s[i] = emit.Pair(emit.ZI(int64(m.Chain)), emit.ZU(m.ID), coqEntries(m.Addrs, m.Powers))
+		s[i] = emit.Pair(t.id(m.Chain), emit.ZU(m.ID), coqEntries(m.Addrs, m.Powers))
 	}
 	return emit.List(s)
 }
@@ -640,16 +858,19 @@ func (e *env) observe(run *emit.Run, a *addrReg, hist *[]string, sent []sentMsg)
 			if !sameVals(old.Vals, o.Vals) || old.Total.Cmp(o.Total) != 0 || !okc {
 				run.Violate("C10:stored-snapshot-mutated", fmt.Sprintf("snapshot %d changed other than by added chains", id), replay())
 			}
+		} else {
+			// just stored (nothing happened since the build): its members against the chains active now
+			e.membersHaveAccounts(run, fmt.Sprintf("stored snapshot %d", id), o, replay())
 		}
 		e.known[id] = o
-		store = append(store, coqSnap(o))
+		store = append(store, coqSnap(e.tb, o))
 	}
 	e.lastID = top
 	// sent messages: quorum, floor powers, one entry per validator
 	for _, m := range sent {
 		sn, ok := e.known[m.ID]
 		if !ok {
-			run.Violate("C10:sent-unknown-snapshot", fmt.Sprintf("valset %d sent to chain-%d is no stored snapshot", m.ID, m.Chain), replay())
+			run.Violate("C10:sent-unknown-snapshot", fmt.Sprintf("valset %d sent to %q is no stored snapshot", m.ID, m.Chain), replay())
 			continue
 		}
 		sum := new(big.Int)
@@ -657,14 +878,14 @@ func (e *env) observe(run *emit.Run, a *addrReg, hist *[]string, sent []sentMsg)
 			sum.Add(sum, new(big.Int).SetUint64(p))
 		}
 		if sum.Cmp(threshold) < 0 {
-			run.Violate("C10:sent-without-quorum", fmt.Sprintf("valset %d sent to chain-%d with powers summing to %s < %s", m.ID, m.Chain, sum, threshold), replay())
+			run.Violate("C10:sent-without-quorum", fmt.Sprintf("valset %d sent to %q with powers summing to %s < %s", m.ID, m.Chain, sum, threshold), replay())
 		}
 		if sum.Cmp(threshold) == 0 && !gapSentReported {
 			gapSentReported = true
-			run.Violate("C10:quorum-floor-gap", fmt.Sprintf("valset %d sent to chain-%d with powers summing to exactly %s: 3*sum = 2^33-2 < 2*2^32", m.ID, m.Chain, sum), replay())
+			run.Violate("C10:quorum-floor-gap", fmt.Sprintf("valset %d really enqueued for %q with powers %v summing to exactly %s = thresholdForConsensus: 3*sum = 2^33-2 < 2*2^32", m.ID, m.Chain, m.Powers, sum), replay())
 		}
 		if sum.Cmp(two32) > 0 {
-			run.Violate("C10:power-sum-above-2p32", fmt.Sprintf("valset %d sent to chain-%d with powers summing to %s > 2^32", m.ID, m.Chain, sum), replay())
+			run.Violate("C10:power-sum-above-2p32", fmt.Sprintf("valset %d sent to %q with powers summing to %s > 2^32", m.ID, m.Chain, sum), replay())
 		}
 		total := new(big.Int)
 		share := map[int64]*big.Int{}
@@ -673,7 +894,7 @@ func (e *env) observe(run *emit.Run, a *addrReg, hist *[]string, sent []sentMsg)
 			total.Add(total, v.Share)
 			has := false
 			for _, i := range v.Infos {
-				if i.Evm && i.Chain == m.Chain {
+				if isEvm(i.Type) && i.Ref == m.Chain {
 					share[i.Addr] = v.Share
 					has = true
 				}
@@ -683,12 +904,12 @@ func (e *env) observe(run *emit.Run, a *addrReg, hist *[]string, sent []sentMsg)
 			}
 		}
 		if n != len(m.Addrs) {
-			run.Violate("C10:validator-entries", fmt.Sprintf("valset %d sent to chain-%d: %d validators with an account, %d entries", m.ID, m.Chain, n, len(m.Addrs)), replay())
+			run.Violate("C10:validator-entries", fmt.Sprintf("valset %d sent to %q: %d validators with an account, %d entries", m.ID, m.Chain, n, len(m.Addrs)), replay())
 		}
 		for k, ad := range m.Addrs {
 			sh, ok := share[ad]
 			if !ok {
-				run.Violate("C10:entry-without-account", fmt.Sprintf("valset %d sent to chain-%d lists an address that is no account there", m.ID, m.Chain), replay())
+				run.Violate("C10:entry-without-account", fmt.Sprintf("valset %d sent to %q lists an address that is no account there", m.ID, m.Chain), replay())
 				continue
 			}
 			if want := floorPower(sh, total); want.Cmp(new(big.Int).SetUint64(m.Powers[k])) != 0 {
@@ -697,7 +918,7 @@ func (e *env) observe(run *emit.Run, a *addrReg, hist *[]string, sent []sentMsg)
 		}
 		run.Count("sent", fmt.Sprintf("entries=%d", len(m.Addrs)))
 	}
-	return fmt.Sprintf("{| C10.o_current := %s; C10.o_store := %s; C10.o_sent := %s |}", emit.ZU(curID), emit.List(store), coqSent(sent))
+	return fmt.Sprintf("{| C10.o_current := %s; C10.o_store := %s; C10.o_sent := %s |}", emit.ZU(curID), emit.List(store), coqSent(e.tb, sent))
 }
 
 func genTokens(r *rand.Rand, mode int) *big.Int {
@@ -718,19 +939,297 @@ func genTokens(r *rand.Rand, mode int) *big.Int {
 	}
 }
 
-func doHistory(t *testing.T, run *emit.Run, a *addrReg, r *rand.Rand, next *int64, nops int) {
-	e := newEnv(t)
-	e.nvals = 2 + r.Intn(5)
-	var hist []string // human-readable replay
-	var steps []string
-	stored, rejected, sentN := 0, 0, 0
-	tokMode := r.Intn(5)
-	record := func(hop string, sent []sentMsg) {
-		obs := e.observe(run, a, &hist, sent)
-		steps = append(steps, emit.Pair(hop, obs))
-		sentN += len(sent)
+// hist is one history being driven and recorded
+type hist struct {
+	t                                 *testing.T
+	run                               *emit.Run
+	a                                 *addrReg
+	e                                 *env
+	log                               []string // human-readable replay
+	steps                             []string
+	next                              *int64
+	stored, rejected, sentN, nearMiss int
+}
+
+func (h *hist) replay() any { return map[string]any{"kind": "history", "ops": h.log} }
+
+func (h *hist) record(hop string, sent []sentMsg) {
+	obs := h.e.observe(h.run, h.a, &h.log, sent)
+	h.steps = append(h.steps, emit.Pair(hop, obs))
+	h.sentN += len(sent)
+}
+
+type stakeSpec struct {
+	Status stakingtypes.BondStatus
+	Jailed bool
+	Tokens *big.Int
+}
+
+func (h *hist) stakingSet(set map[int]stakeSpec) {
+	e := h.e
+	for i := 0; i < 1<<16 && len(set) > 0; i++ {
+		v, ok := set[i]
+		if !ok {
+			continue
+		}
+		delete(set, i)
+		if err := e.setValidator(i, v.Status, v.Jailed, v.Tokens); err != nil {
+			h.t.Fatalf("setValidator: %v", err)
+		}
 	}
+	svs := e.staking()
+	s := make([]string, len(svs))
+	for k, v := range svs {
+		s[k] = emit.Pair(emit.ZI(int64(v.Val)), emit.Bool(v.Bonded), emit.Bool(v.Jailed), emit.Z(v.Tokens))
+	}
+	h.log = append(h.log, fmt.Sprintf("staking %v", s))
+	h.run.Count("op", "staking")
+	h.record("C10.HStaking "+emit.List(s), nil)
+}
+
+func (h *hist) register(i int, infos []rinfo) bool {
+	var ext []*valsettypes.ExternalChainInfo
+	for _, in := range infos {
+		ext = append(ext, mkExt(h.a, in))
+	}
+	err := h.e.in.ValsetKeeper.AddExternalChainInfo(h.e.ctx, valAddr(i), ext)
+	if err != nil {
+		h.rejected++
+	}
+	h.log = append(h.log, fmt.Sprintf("register v%d %q -> %v", i, infos, err == nil))
+	h.run.Count("op", fmt.Sprintf("register ok=%v", err == nil))
+	h.record(fmt.Sprintf("C10.HRegister %s %s %s", emit.ZI(int64(i)), coqInfos(h.e.tb, infos), emit.Bool(err == nil)), nil)
+	return err == nil
+}
+
+func (h *hist) recordChains() {
+	h.run.Count("op", "chains")
+	h.record("C10.HChains "+coqChains(h.e.tb, h.e.allChains()), h.e.newSent(h.a))
+}
+
+func (h *hist) addChain(name string) {
+	e := h.e
+	if !e.chains[name] {
+		e.chainID++
+		if err := e.in.EvmKeeper.AddSupportForNewChain(e.ctx, name, 100+e.chainID, 1, "0xbeef", big.NewInt(1)); err == nil {
+			e.chains[name] = true
+		}
+		h.log = append(h.log, fmt.Sprintf("add %q", name))
+	}
+	h.recordChains()
+}
+
+func (h *hist) activateChain(name string) {
+	e := h.e
+	e.scID++
+	_ = e.in.EvmKeeper.ActivateChainReferenceID(e.ctx, name, &evmtypes.SmartContract{Id: e.scID}, fmt.Sprintf("0xc0%02d", e.scID), []byte(fmt.Sprintf("uid-%d", e.scID)))
+	h.log = append(h.log, fmt.Sprintf("activate %q", name))
+	h.recordChains()
+}
+
+func (h *hist) removeChain(name string) {
+	e := h.e
+	_ = e.in.EvmKeeper.RemoveSupportForChain(e.ctx, &evmtypes.RemoveChainProposal{ChainReferenceID: name})
+	delete(e.chains, name)
+	h.log = append(h.log, fmt.Sprintf("remove %q", name))
+	h.recordChains()
+}
+
+func (h *hist) build() {
+	e, run, a := h.e, h.run, h.a
+	created, err := e.in.ValsetKeeper.VerifCreateNewSnapshot(e.ctx)
+	if err != nil {
+		h.t.Fatalf("createNewSnapshot: %v", err)
+	}
+	co := project(a, created)
+	// oracle: faithful to the staking / registration / chain state
+	want, wtotal := e.expectedSnapshot(a)
+	if !sameVals(want, co.Vals) || wtotal.Cmp(co.Total) != 0 {
+		run.Violate("C10:snapshot-unfaithful", fmt.Sprintf("createNewSnapshot lists %d validators / total %s, expected %d / %s", len(co.Vals), co.Total, len(want), wtotal), h.replay())
+	}
+	e.membersHaveAccounts(run, "createNewSnapshot", co, h.replay())
+	before := e.lastID
+	e.in.MetrixKeeper.UpdateUptime(e.ctx)
+	var sn *valsettypes.Snapshot
+	perr := func() (p any) {
+		defer func() { p = recover() }()
+		sn, err = e.in.ValsetKeeper.TriggerSnapshotBuild(e.ctx)
+		return nil
+	}()
+	if perr != nil {
+		run.Violate("C10:build-panics", fmt.Sprintf("TriggerSnapshotBuild panics: %v", perr), h.replay())
+	}
+	did := err == nil && sn != nil
+	if perr != nil { // whatever was written before the panic stays (no cache context here)
+		if x, e2 := e.in.ValsetKeeper.FindSnapshotByID(e.ctx, before+1); e2 == nil && x != nil {
+			did = true
+		}
+	}
+	if did {
+		h.stored++
+	}
+	h.log = append(h.log, fmt.Sprintf("build -> stored=%v", did))
+	run.Count("op", fmt.Sprintf("build stored=%v", did))
+	h.record(fmt.Sprintf("C10.HBuild %s %s", coqSnap(e.tb, co), emit.Bool(did)), e.newSent(a))
+	if did && e.lastID != before+1 {
+		run.Violate("C10:id-not-increasing", fmt.Sprintf("build stored a snapshot but last id went %d -> %d", before, e.lastID), h.replay())
+	}
+}
+
+func (h *hist) setOnChain(id uint64, name string) {
+	err := h.e.in.ValsetKeeper.SetSnapshotOnChain(h.e.ctx, id, name)
+	if err != nil {
+		h.rejected++
+	}
+	h.log = append(h.log, fmt.Sprintf("set-on-chain %d %q -> %v", id, name, err == nil))
+	h.run.Count("op", fmt.Sprintf("set-on-chain ok=%v", err == nil))
+	h.record(fmt.Sprintf("C10.HSetOnChain %s %s %s", emit.ZU(id), h.e.tb.id(name), emit.Bool(err == nil)), nil)
+}
+
+func (h *hist) jit(name string) {
+	e := h.e
+	func() {
+		defer func() {
+			if p := recover(); p != nil {
+				h.run.Violate("C10:jit-panics", fmt.Sprintf("justInTimeValsetUpdate panics: %v", p), h.replay())
+			}
+		}()
+		_ = e.in.EvmKeeper.PreJobExecution(e.ctx, &schedulertypes.Job{ID: "j", Routing: schedulertypes.Routing{ChainType: "evm", ChainReferenceID: name}})
+	}()
+	h.log = append(h.log, fmt.Sprintf("jit %q", name))
+	h.run.Count("op", "jit")
+	h.record(fmt.Sprintf("C10.HJit %s", e.tb.id(name)), e.newSent(h.a))
+}
+
+// missing calls the real evm Keeper.MissingChains with the given ids: direct oracle (exactly the
+// active chains whose id is not, as a Go string, among the input, in store order) + a
+// correspondence case of its own.
+func (h *hist) missing(input []string) {
+	e := h.e
+	got, err := e.in.EvmKeeper.MissingChains(e.ctx, input)
+	if err != nil {
+		return
+	}
+	all := e.allChains()
+	var want []string
+	for _, c := range all {
+		if !c.Active {
+			continue
+		}
+		f := false
+		for _, i := range input {
+			f = f || i == c.Ref
+		}
+		if !f {
+			want = append(want, c.Ref)
+		}
+	}
+	same := len(got) == len(want)
+	for k := range want {
+		same = same && got[k] == want[k]
+	}
+	if !same {
+		h.run.Violate("C10:missing-chains-inexact", fmt.Sprintf("MissingChains(%q) = %q, but the active chains whose reference id is not among the input are %q", input, got, want),
+			map[string]any{"kind": "missing-chains", "input": input, "chains": all, "ops": h.log})
+	}
+	tb := newStab()
+	h.run.Count("missing", fmt.Sprintf("reported=%d", min(len(got), 3)))
+	term := fmt.Sprintf("%s %s %s", tb.ids(input), coqChains(tb, all), tb.ids(got)) // fills the table
+	h.run.Case("C10.CMissing "+tb.coq()+" "+term, len(got) > 0 && len(input) > 0,
+		map[string]any{"missing": input, "got": got})
+}
+
+func (h *hist) finish(nontrivial bool) {
+	h.run.Count("history", fmt.Sprintf("stored=%d", min(h.stored, 5)))
+	h.run.Count("history-near-miss-ids", fmt.Sprintf("%d", min(h.nearMiss, 5)))
+	h.run.Case("C10.CHist "+h.e.tb.coq()+" "+emit.List(h.steps), nontrivial, map[string]any{"history": h.log, "sent": h.sentN})
+}
+
+func newHist(t *testing.T, run *emit.Run, a *addrReg, next *int64, names []string) *hist {
+	e := newEnv(t)
+	e.names = names
+	return &hist{t: t, run: run, a: a, e: e, next: next}
+}
+
+// directed histories, run first on every check (no randomness)
+
+func (h *hist) acct(typ, ref string) rinfo {
+	*h.next++
+	return rinfo{Type: typ, Ref: ref, Addr: *h.next}
+}
+
+func equalStake(n int, tokens int64) map[int]stakeSpec {
+	set := map[int]stakeSpec{}
+	for i := 0; i < n; i++ {
+		set[i] = stakeSpec{Status: stakingtypes.Bonded, Tokens: big.NewInt(tokens)}
+	}
+	return set
+}
+
+// quorumGapHistory: the known finding C10:quorum-floor-gap at system level.  Three validators with
+// equal stake are members of the snapshot; the third one's account for chain-1 is not an evm account
+// (MissingChains looks at reference ids only), so the valset projected to chain-1 holds two entries
+// of floor(2^32/3) = 1431655765: the sum is exactly thresholdForConsensus = 2863311530, the gate
+// passes, and the UpdateValset message is really enqueued although the two validators hold
+// 2/3 - 2/(3*2^32) of the power scale (3*sum = 2^33-2 < 2*2^32).
+func quorumGapHistory(t *testing.T, run *emit.Run, a *addrReg, next *int64) {
+	n0, n1 := chainName(0), chainName(1)
+	h := newHist(t, run, a, next, []string{n0, n1})
+	h.e.nvals = 3
+	h.addChain(n0)
+	h.activateChain(n0)
+	h.addChain(n1)
+	h.activateChain(n1)
+	h.stakingSet(equalStake(3, 1_000_000))
+	h.register(0, []rinfo{h.acct("evm", n0), h.acct("evm", n1)})
+	h.register(1, []rinfo{h.acct("evm", n0), h.acct("evm", n1)})
+	h.register(2, []rinfo{h.acct("evm", n0), h.acct("solana", n1)})
+	h.build()
+	run.Count("directed", fmt.Sprintf("quorum-gap sent=%d", h.sentN))
+	h.finish(true)
+}
+
+// nearMissHistory: a validator registered under a case variant (and others under other near misses)
+// of the only active chain's id must stay out of the snapshot; a chain whose id is a case variant
+// of another chain's id is a chain of its own.
+func nearMissHistory(t *testing.T, run *emit.Run, a *addrReg, next *int64) {
+	n0 := "eth-main"
+	variants := []string{"Eth-Main", "ETH-MAIN", "eth-main ", " eth-main", "eth-mai", "eth-main1", "\u0435th-main", "eth\u2010main"}
+	h := newHist(t, run, a, next, []string{n0, "Eth-Main"})
+	h.e.nvals = 2 + len(variants)
+	h.addChain(n0)
+	h.activateChain(n0)
+	h.stakingSet(equalStake(h.e.nvals, 5_000_000))
+	h.register(0, []rinfo{h.acct("evm", n0)})
+	h.register(1, []rinfo{h.acct("EVM", n0)})
+	for k, v := range variants {
+		h.register(2+k, []rinfo{h.acct("evm", v)})
+		h.missing([]string{v})
+	}
+	h.build() // members: v0, v1
+	h.addChain("Eth-Main")
+	h.activateChain("Eth-Main") // now v2 has an account on "Eth-Main" but not on "eth-main", v0/v1 the other way round
+	h.missing([]string{n0})
+	h.missing([]string{"Eth-Main"})
+	h.build() // nobody
+	h.register(0, []rinfo{h.acct("evm", n0), h.acct("evm", "Eth-Main")})
+	h.build() // v0
+	run.Count("directed", fmt.Sprintf("near-miss stored=%d", h.stored))
+	h.finish(true)
+}
+
+func doHistory(t *testing.T, run *emit.Run, a *addrReg, r *rand.Rand, next *int64, nops int) {
+	names := []string{chainName(0), chainName(1), chainName(2)}
+	if r.Intn(4) == 0 { // a chain of its own whose id only looks like another chain's id
+		names = append(names, nearMiss(r, names[r.Intn(3)]))
+	}
+	h := newHist(t, run, a, next, names)
+	e := h.e
+	e.nvals = 2 + r.Intn(5)
+	tokMode := r.Intn(5)
+	traitPool := []string{"mev", "fast", "MEV", "archive"}
 	stakingOp := func(all bool) {
+		set := map[int]stakeSpec{}
 		for i := 0; i < e.nvals; i++ {
 			if !all && r.Intn(3) != 0 {
 				continue
@@ -741,114 +1240,72 @@ func doHistory(t *testing.T, run *emit.Run, a *addrReg, r *rand.Rand, next *int6
 			} else if x == 1 {
 				st = stakingtypes.Unbonded
 			}
-			jailed := r.Intn(8) == 0
-			tok := genTokens(r, tokMode)
-			if err := e.setValidator(i, st, jailed, tok); err != nil {
-				t.Fatalf("setValidator: %v", err)
+			set[i] = stakeSpec{Status: st, Jailed: r.Intn(8) == 0, Tokens: genTokens(r, tokMode)}
+		}
+		h.stakingSet(set)
+	}
+	// spell: how a validator writes the reference id of chain slot c into its registration
+	spell := func(c int, pMiss int) string {
+		if pMiss > 0 && r.Intn(pMiss) == 0 {
+			h.nearMiss++
+			if len(names) > 3 && r.Intn(2) == 0 {
+				return names[3]
 			}
+			return nearMiss(r, names[c])
 		}
-		svs := e.staking()
-		s := make([]string, len(svs))
-		for k, v := range svs {
-			s[k] = emit.Pair(emit.ZI(int64(v.Val)), emit.Bool(v.Bonded), emit.Bool(v.Jailed), emit.Z(v.Tokens))
-		}
-		hist = append(hist, fmt.Sprintf("staking %v", s))
-		run.Count("op", "staking")
-		record("C10.HStaking "+emit.List(s), nil)
+		return names[c]
 	}
 	registerOp := func(i int, full bool) {
 		var infos []rinfo
-		var ext []*valsettypes.ExternalChainInfo
-		for c := 0; c < 3; c++ {
+		pMiss := 6
+		if full {
+			pMiss = 14
+		}
+		for c := 0; c < len(names); c++ {
+			if c >= 3 && r.Intn(2) == 0 {
+				continue
+			}
 			if full || r.Intn(4) != 0 {
 				*next++
 				ad := *next
 				if !full && r.Intn(12) == 0 && *next > 3 { // hostile: somebody else's address (collision)
 					ad = 1 + r.Int63n(*next-1)
 				}
-				in := rinfo{Evm: r.Intn(10) != 0, Chain: c, Addr: ad}
+				in := rinfo{Type: genType(r, r.Intn(10) != 0), Ref: spell(c, pMiss), Addr: ad}
+				if r.Intn(5) == 0 {
+					in.Traits = append(in.Traits, traitPool[r.Intn(len(traitPool))])
+					if r.Intn(3) == 0 {
+						in.Traits = append(in.Traits, traitPool[r.Intn(len(traitPool))])
+					}
+				}
 				infos = append(infos, in)
-				ext = append(ext, mkExt(a, in, typeFor(r, in.Evm)))
-				if !full && r.Intn(8) == 0 { // second account on the same chain
+				if !full && r.Intn(8) == 0 { // second account on the same chain (sometimes under a near-miss id)
 					*next++
-					in2 := rinfo{Evm: true, Chain: c, Addr: *next}
-					infos = append(infos, in2)
-					ext = append(ext, mkExt(a, in2, "evm"))
+					infos = append(infos, rinfo{Type: "evm", Ref: spell(c, 3), Addr: *next})
 				}
 			}
 		}
-		err := e.in.ValsetKeeper.AddExternalChainInfo(e.ctx, valAddr(i), ext)
-		if err != nil {
-			rejected++
-		}
-		hist = append(hist, fmt.Sprintf("register v%d %v -> %v", i, infos, err == nil))
-		run.Count("op", fmt.Sprintf("register ok=%v", err == nil))
-		record(fmt.Sprintf("C10.HRegister %s %s %s", emit.ZI(int64(i)), coqInfos(infos), emit.Bool(err == nil)), nil)
+		h.register(i, infos)
 	}
 	chainOp := func(c int, kind int) {
 		switch {
-		case !e.chains[c]:
-			if err := e.in.EvmKeeper.AddSupportForNewChain(e.ctx, chainName(c), uint64(100+c), 1, "0xbeef", big.NewInt(1)); err == nil {
-				e.chains[c] = true
-			}
-			hist = append(hist, fmt.Sprintf("add chain-%d", c))
+		case !e.chains[names[c]]:
+			h.addChain(names[c])
 		case kind == 0:
-			e.scID++
-			_ = e.in.EvmKeeper.ActivateChainReferenceID(e.ctx, chainName(c), &evmtypes.SmartContract{Id: e.scID}, fmt.Sprintf("0xc0%02d", c), []byte(fmt.Sprintf("uid-%d", c)))
-			hist = append(hist, fmt.Sprintf("activate chain-%d", c))
+			h.activateChain(names[c])
 		default:
 			if r.Intn(3) == 0 {
-				_ = e.in.EvmKeeper.RemoveSupportForChain(e.ctx, &evmtypes.RemoveChainProposal{ChainReferenceID: chainName(c)})
-				delete(e.chains, c)
-				hist = append(hist, fmt.Sprintf("remove chain-%d", c))
+				h.removeChain(names[c])
+			} else {
+				h.recordChains()
 			}
 		}
-		ac := e.activeChains()
-		s := make([]string, len(ac))
-		for k, c := range ac {
-			s[k] = emit.ZI(int64(c))
-		}
-		run.Count("op", "chains")
-		record("C10.HActive "+emit.List(s), e.newSent(a))
 	}
-	buildOp := func() {
-		created, err := e.in.ValsetKeeper.VerifCreateNewSnapshot(e.ctx)
-		if err != nil {
-			t.Fatalf("createNewSnapshot: %v", err)
+	anyName := func() string {
+		if r.Intn(8) == 0 {
+			return nearMiss(r, names[r.Intn(len(names))])
 		}
-		co := project(a, created)
-		// oracle: faithful to the staking / registration / chain state
-		want, wtotal := e.expectedSnapshot(a)
-		if !sameVals(want, co.Vals) || wtotal.Cmp(co.Total) != 0 {
-			run.Violate("C10:snapshot-unfaithful", fmt.Sprintf("createNewSnapshot lists %d validators / total %s, expected %d / %s", len(co.Vals), co.Total, len(want), wtotal),
-				map[string]any{"kind": "history", "ops": hist})
-		}
-		before := e.lastID
-		e.in.MetrixKeeper.UpdateUptime(e.ctx)
-		var sn *valsettypes.Snapshot
-		perr := func() (p any) {
-			defer func() { p = recover() }()
-			sn, err = e.in.ValsetKeeper.TriggerSnapshotBuild(e.ctx)
-			return nil
-		}()
-		if perr != nil {
-			run.Violate("C10:build-panics", fmt.Sprintf("TriggerSnapshotBuild panics: %v", perr), map[string]any{"kind": "history", "ops": hist})
-		}
-		did := err == nil && sn != nil
-		if perr != nil { // whatever was written before the panic stays (no cache context here)
-			if x, e2 := e.in.ValsetKeeper.FindSnapshotByID(e.ctx, before+1); e2 == nil && x != nil {
-				did = true
-			}
-		}
-		if did {
-			stored++
-		}
-		hist = append(hist, fmt.Sprintf("build -> stored=%v", did))
-		run.Count("op", fmt.Sprintf("build stored=%v", did))
-		record(fmt.Sprintf("C10.HBuild %s %s", coqSnap(co), emit.Bool(did)), e.newSent(a))
-		if did && e.lastID != before+1 {
-			run.Violate("C10:id-not-increasing", fmt.Sprintf("build stored a snapshot but last id went %d -> %d", before, e.lastID), map[string]any{"kind": "history", "ops": hist})
-		}
+		return names[r.Intn(len(names))]
 	}
 	onChainOp := func() {
 		id := uint64(0)
@@ -860,32 +1317,32 @@ func doHistory(t *testing.T, run *emit.Run, a *addrReg, r *rand.Rand, next *int6
 				id = e.lastID + 1
 			}
 		}
-		c := r.Intn(3)
-		err := e.in.ValsetKeeper.SetSnapshotOnChain(e.ctx, id, chainName(c))
-		if err != nil {
-			rejected++
-		}
-		hist = append(hist, fmt.Sprintf("set-on-chain %d chain-%d -> %v", id, c, err == nil))
-		run.Count("op", fmt.Sprintf("set-on-chain ok=%v", err == nil))
-		record(fmt.Sprintf("C10.HSetOnChain %s %s %s", emit.ZU(id), emit.ZI(int64(c)), emit.Bool(err == nil)), nil)
+		h.setOnChain(id, anyName())
 	}
-	jitOp := func() {
-		c := r.Intn(3)
-		func() {
-			defer func() {
-				if p := recover(); p != nil {
-					run.Violate("C10:jit-panics", fmt.Sprintf("justInTimeValsetUpdate panics: %v", p), map[string]any{"kind": "history", "ops": hist})
+	missingOp := func() {
+		var input []string
+		if r.Intn(2) == 0 { // the ids of a validator's registered accounts, as ValidatorSupportsAllChains passes them
+			es, _ := e.in.ValsetKeeper.GetValidatorChainInfos(e.ctx, valAddr(r.Intn(e.nvals)))
+			for _, x := range es {
+				input = append(input, x.GetChainReferenceID())
+			}
+		} else {
+			for _, n := range names {
+				switch r.Intn(4) {
+				case 0:
+				case 1:
+					input = append(input, nearMiss(r, n))
+				default:
+					input = append(input, n)
 				}
-			}()
-			_ = e.in.EvmKeeper.PreJobExecution(e.ctx, &schedulertypes.Job{ID: "j", Routing: schedulertypes.Routing{ChainType: "evm", ChainReferenceID: chainName(c)}})
-		}()
-		hist = append(hist, fmt.Sprintf("jit chain-%d", c))
-		run.Count("op", "jit")
-		record(fmt.Sprintf("C10.HJit %s", emit.ZI(int64(c))), e.newSent(a))
+			}
+			r.Shuffle(len(input), func(x, y int) { input[x], input[y] = input[y], input[x] })
+		}
+		h.missing(input)
 	}
 
 	// mostly-valid prefix: chains, validators, registrations, first build
-	nch := 1 + r.Intn(3)
+	nch := 1 + r.Intn(len(names))
 	for c := 0; c < nch; c++ {
 		chainOp(c, 0)
 		if r.Intn(4) != 0 {
@@ -898,25 +1355,27 @@ func doHistory(t *testing.T, run *emit.Run, a *addrReg, r *rand.Rand, next *int6
 			registerOp(i, r.Intn(3) != 0)
 		}
 	}
-	buildOp()
+	missingOp()
+	h.build()
 	for k := 0; k < nops; k++ {
-		switch x := r.Intn(20); {
+		switch x := r.Intn(21); {
 		case x < 4:
 			stakingOp(false)
 		case x < 7:
 			registerOp(r.Intn(e.nvals), r.Intn(2) == 0)
 		case x < 9:
-			chainOp(r.Intn(3), r.Intn(2))
+			chainOp(r.Intn(len(names)), r.Intn(2))
 		case x < 14:
-			buildOp()
+			h.build()
 		case x < 17:
 			onChainOp()
+		case x < 18:
+			missingOp()
 		default:
-			jitOp()
+			h.jit(anyName())
 		}
 	}
-	run.Count("history", fmt.Sprintf("stored=%d", min(stored, 5)))
-	run.Case("C10.CHist "+emit.List(steps), stored >= 2 && rejected >= 1, map[string]any{"history": hist, "sent": sentN})
+	h.finish(h.stored >= 2 && h.rejected >= 1)
 }
 
 func min(a, b int) int {
@@ -933,10 +1392,13 @@ func TestCorr(t *testing.T) {
 	var next int64
 	run.Rule("seeded generator. (1) projection: 1..8 (sometimes 21..35) snapshot validators, share families: a*2^32 = -1 (mod total) " +
 		"(quotient just below an integer), all equal, near-equal, one dominant, equal shares around the 2/3 boundary, 10^18 scale, tiny with zeros, " +
-		"occasionally beyond int64; accounts on 3 chains incl. non-evm and mixed-case chain types and second accounts on the same chain; " +
-		"non-trivial = at least two entries sent. (2) histories on the real staking/valset/evm/consensus keepers: chains added / activated / removed, " +
-		"validators bonded / unbonding / unbonded / jailed with arbitrary tokens, registrations (incl. colliding and duplicate accounts), builds, " +
-		"SetSnapshotOnChain on existing and non-existing ids, just-in-time valset updates; non-trivial = at least two stored snapshots and one rejected operation")
+		"occasionally beyond int64; accounts on 3 chains, chain types in the 8 spellings of evm and in near misses (blank, look-alike letters, prefix, other type), " +
+		"reference ids exact or near-miss spellings (letter case, blanks, look-alike letters, prefix / suffix / extension), projection to a near-miss id, second accounts " +
+		"on the same chain; non-trivial = at least two entries sent. (2) histories on the real staking/valset/evm/consensus keepers: chains added / activated / removed " +
+		"(sometimes a chain whose id is a near miss of another chain's id), validators bonded / unbonding / unbonded / jailed with arbitrary tokens, registrations " +
+		"(incl. colliding and duplicate accounts, near-miss reference ids, traits), builds, SetSnapshotOnChain on existing and non-existing ids, just-in-time valset " +
+		"updates; non-trivial = at least two stored snapshots and one rejected operation. (3) evm MissingChains called directly with registered and hostile id lists. " +
+		"Two directed histories first: quorum-floor-gap at system level, near-miss ids")
 
 	// corpus first: minimised past failures
 	files, _ := filepath.Glob("../corpus/C10/*.json")
@@ -973,6 +1435,8 @@ func TestCorr(t *testing.T) {
 			}
 		}
 	}
+	quorumGapHistory(t, run, a, &next)
+	nearMissHistory(t, run, a, &next)
 	nHist := run.N / 5
 	nTr := run.N - nHist
 	for i := 0; i < nTr; i++ {
